@@ -148,9 +148,6 @@ def judge(op, x, y, d, e, fv, nonzero_fill):
     m = same(got, ref, op.tol)
     if m:
         return "silent", m
-    if isinstance(got, sparse.SparseArray) and not isinstance(ref, tuple | list) and got.size and np.ndim(ref) == got.ndim:
-        # the reported fill must be the value NumPy has at some unstored position (if there is one)
-        pass
     return None
 
 
@@ -219,7 +216,7 @@ def sweep(ctx, rng):
                              "not_in_all": stale}
     observed = {}  # (name, fmt, fill) -> 'ok' | 'raises' | 'wrong' ...  (used by leg A)
     baseline_fail = []
-    reps = 1 if ctx.quick else 4
+    reps = 1 if ctx.quick else 12
     for key, op in c07_ops.OPS.items():
         name = c07_ops.base_name(key)
         for fmt in op.formats:
